@@ -3060,9 +3060,13 @@ impl Server {
                 let timeout_str = String::from_utf8_lossy(bytes);
                 // Try parsing as float first to handle both integer and decimal values
                 match timeout_str.parse::<f64>() {
-                    Ok(t) if t < 0.0 => return Ok(RespFrame::error("ERR timeout is not a float or out of range")),
+                    Ok(t) if t.is_nan() || t < 0.0 => return Ok(RespFrame::error("ERR timeout is not a float or out of range")),
                     Ok(0.0) => None, // 0 means block forever
-                    Ok(t) => Some(std::time::Duration::from_secs_f64(t)),
+                    // NaN, infinite or too large for a Duration: refused, never a panic
+                    Ok(t) => match std::time::Duration::try_from_secs_f64(t) {
+                        Ok(d) => Some(d),
+                        Err(_) => return Ok(RespFrame::error("ERR timeout is not a float or out of range")),
+                    },
                     Err(_) => return Ok(RespFrame::error("ERR timeout is not a float or out of range")),
                 }
             }
@@ -3091,7 +3095,8 @@ impl Server {
         }
         
         // No data available, register as blocked
-        let deadline = timeout.map(|t| Instant::now() + t);
+        // A timeout beyond what Instant can represent means waiting without a deadline
+        let deadline = timeout.and_then(|t| Instant::now().checked_add(t));
         self.blocking_manager.register_blocked(db_index, conn_id, keys.clone(), BlockingOp::BLPop, deadline)?;
         
         // Move connection to blocked state
@@ -3119,9 +3124,13 @@ impl Server {
                 let timeout_str = String::from_utf8_lossy(bytes);
                 // Try parsing as float first to handle both integer and decimal values
                 match timeout_str.parse::<f64>() {
-                    Ok(t) if t < 0.0 => return Ok(RespFrame::error("ERR timeout is not a float or out of range")),
+                    Ok(t) if t.is_nan() || t < 0.0 => return Ok(RespFrame::error("ERR timeout is not a float or out of range")),
                     Ok(0.0) => None, // 0 means block forever
-                    Ok(t) => Some(std::time::Duration::from_secs_f64(t)),
+                    // NaN, infinite or too large for a Duration: refused, never a panic
+                    Ok(t) => match std::time::Duration::try_from_secs_f64(t) {
+                        Ok(d) => Some(d),
+                        Err(_) => return Ok(RespFrame::error("ERR timeout is not a float or out of range")),
+                    },
                     Err(_) => return Ok(RespFrame::error("ERR timeout is not a float or out of range")),
                 }
             }
@@ -3150,7 +3159,8 @@ impl Server {
         }
         
         // No data available, register as blocked
-        let deadline = timeout.map(|t| Instant::now() + t);
+        // A timeout beyond what Instant can represent means waiting without a deadline
+        let deadline = timeout.and_then(|t| Instant::now().checked_add(t));
         self.blocking_manager.register_blocked(db_index, conn_id, keys.clone(), BlockingOp::BRPop, deadline)?;
         
         // Move connection to blocked state
